@@ -44,22 +44,27 @@ SOURCES = ["include/etl/_type_traits/is_constant_evaluated.hpp", "include/etl/_c
            "include/etl/_3rd_party/gcem/gcem_incl/find_whole.hpp"]
 RULE = ("every case is evaluated inside a constexpr table (constant evaluator) and at run time from volatile-laundered arguments "
         "at -O0, -O2 and -O1+ASan/UBSan, and by the Lean model/spec. Integer functions: every 8-bit argument (popcount u8, "
-        "add_sat and add_sat_fallback i8/u8: all 65536 pairs, the 14 cctype functions: all 257 arguments) plus boundary "
+        "add_sat i8/u8: all 65536 pairs; add_sat_fallback i8/u8: all 65536 pairs in the thorough tier, in the quick tier the pairs with y in a "
+        "boundary set (i8: -128..-126, -65..-63, -2..2, 62..64, 126, 127; u8: 0..2, 63, 64, 127..129, 191, 192, 253..255) or x+y within 2 "
+        "of a saturation bound (~6000 pairs per type); the 14 cctype functions: all 257 arguments) plus boundary "
         "(0, 1, 2^k, 2^k +- 1, limits) and seeded random values for 16/32/64 bit; byteswap and its fallback on those; C-string "
         "functions: every pair of strings of length <= 2 over {a, b, 0x80, 0xff} (strncmp with every n <= 3, strchr with every "
         "unit and 0, 256+unit, negative int) plus random longer ones; cmath (floor ceil trunc round rint lrint llrint signbit "
-        "isnan isinf isfinite bit_cast, binary32 and binary64): boundary table of bit patterns (+-0, smallest/largest "
+        "isnan isinf isfinite bit_cast sqrt, binary32 and binary64): boundary table of bit patterns (+-0, smallest/largest "
         "subnormals, every 2^k and 2^k +- 1ulp, n + 1/2 and its neighbours for n <= 64, halves and integers around 2^23/2^24/"
         "2^31/2^32/2^52/2^53/2^63/2^64, +-inf, quiet/signalling/negative NaNs, limits, seeded random patterns): ~1500 patterns "
         "per type quick, ~4000 thorough; copysign on a grid of those; fma on double-rounding witnesses (1+a ulp)(1+b ulp) - "
-        "RN(product), exact products, cancellations and random triples. Non-trivial: the specification is defined for the "
+        "RN(product), exact products, cancellations, FLT_MAX*2-FLT_MAX-like triples whose two-step product overflows, 1500 "
+        "(thorough 3600) triples with a product in the subnormal range x tiny addends (folded and unfolded by GCC), "
+        "overflowing products with infinite/NaN addends, random triples; rows whose fused result is undefined or overflows "
+        "(outside the domain, masked) only in the thorough tier plus 6 tagged rows. Non-trivial: the specification is defined for the "
         "input and the result differs from the (first) argument; distinct = distinct case text.")
 ASSUMPTIONS = ["libstdc++ 12 / glibc 2.36 at run time validate the Lean specifications (R2)",
                "a compiler builtin on a path is modelled by its specification (trusted, observed on every case)",
                "GCC's constant evaluator is observed, not modelled: `constant evaluation succeeds on the documented domain` and "
                "`the evaluator computes what the abstract machine computes` hold on the explored cases only"]
 TRUSTED = ["extractor gen/dispatch.py (regex + brace matching over the headers); every builtin call it cannot attribute is an error",
-           "hand models Tetl/C13/Model.lean (gcem floor/ceil/trunc/round, rint/lrint/copysign fallbacks, two-step fma), "
+           "hand models Tetl/C13/Model.lean (gcem floor/ceil/trunc/round, rint/lrint/copysign fallbacks, fold-or-two-step fma, sqrt ladder), "
            "Tetl/C14/Model.lean, Tetl/C18/Model.lean tied to the source by the correspondence run (R1) on every run",
            "bit-level float specification Tetl/C13/Float.lean validated against glibc on every case (R2)",
            "g++ 12 front end (constant evaluator) and code generator at -O0/-O1/-O2"]
@@ -73,19 +78,57 @@ UNPROVED_OBSERVED = [
     "the clang branch of the `#if defined(__clang__)` dispatch in the cstring headers (__builtin_strlen ...) is inventoried "
     "and bound to the same specification, but this toolchain compiles the other branch",
     "long double overloads (x87 80-bit format) are not modelled",
-    "fmod, remainder, sqrt (two paths since the C16 fixes: libm builtin at run time, gcem in constant evaluation) are inventoried "
-    "and bound to their specification by the dispatch theorems, but have no rows in C13's compile-time tables: both paths are "
-    "evaluated on the same inputs by property C16 (ops b/cb fmod, remainder; a/ca sqrt). The constant-evaluated fmod/remainder "
-    "(gcem x - trunc(x/y)*y) is known to differ from the run-time path: finding F-C16-gcem-fmod-constexpr, listed in "
-    "Tetl.C13.Props.dispatch_divergent_are_known",
+    "fmod, remainder (the libm builtin on both paths under GCC since 67c4687 / f0dd916; constant evaluation runs a ladder of "
+    "special values first) are inventoried and bound to their specification by the dispatch theorems "
+    "(dispatch_ct_builtin), but have no rows in C13's compile-time tables: both paths are evaluated on every pair of the "
+    "special-value table harness/c16_ctab.inc by property C16 (ops b/cb fmod, remainder), which also owns their specification",
+    "which calls of __builtin_fma / __builtin_sqrt GCC folds in a constant expression (Tetl.C13.Model.gccFoldsFma, "
+    "`representable`: finite arguments and a result that is a value of the type after one rounding; sqrt: finite, not "
+    "negative) is a model of the compiler read off gcc/fold-const-call.cc, observed on every fma and sqrt row of the run "
+    "(a wrong guess shows as impl != model or as a row that does not constant-evaluate), not proved",
+    "the approximating functions that became two-path with the C16 review fixes (sinh, cosh, tgamma, lgamma, erf, log1p, atanh, "
+    "atan2: libm builtin at run time, gcem in constant evaluation) are inventoried and bound (`approx`); they have no "
+    "exactly specified result and are outside the statement (property C16, tolerant part)",
 ]
 SEARCH_CAP = 10 ** 9
+
+RULE += (" Added by the review: the same rows for the other spellings and overloads: floorf ceilf truncf roundf rintf lrintf llrintf "
+         "copysignf on a sub-sample of the binary32 table (every 5th pattern quick / every 2nd thorough plus the special values); the long "
+         "double overloads and floorl ceill truncl roundl rintl lrintl llrintl copysignl, signbit isnan isinf isfinite of long double: the "
+         "argument is a binary64 pattern x converted exactly to long double plus d units in the 11 further low bits of the 64-bit "
+         "significand (d = 0 on a sub-sample of the binary64 table; d in {1, 2047, random} on 30 % of it; for every binade 2^52..2^65 "
+         "significands 0, 1, all-ones, random with the fraction d at 1/2, 1/2 +- 1 unit, 1, 3/2, 1 unit, 2047 units, both signs), an extra "
+         "negation n (negative NaN = -(long double)NaN), results in two exact parts (rounded to binary64, and the rest); lrint family only "
+         "where the rounded value fits long long (exact rational arithmetic in the generator); the integral overloads floor ceil trunc "
+         "round rint lrint llrint isnan isinf of int32_t/int64_t: 0, +-1, +-2^k, +-2^k +- 1, limits, values beyond 2^53 that the conversion "
+         "rounds, random; detail::signbit_fallback<float/double/long double> called directly; copysign with NaN magnitudes (quiet, "
+         "signalling, payload; both signs) x sign sources of both signs, the sign of a NaN result printed; llrint/lrint of exactly -2^63; "
+         "byteswap of uint8_t/int8_t (all 256) and int16/32/64 (boundary + random). One constant-evaluated script per remaining "
+         "category, small box + seeded random (200-400 quick, ~1600 thorough each): static_vector<int, 8> push_back/erase/insert -> "
+         "weighted sum; inplace_string<16> build/append/find; string_view substr/find/compare; sort + lower_bound on <= 8 ints; "
+         "to_chars/from_chars of int32_t in every base 2..36; year_month_day{sys_days{days{n}}} for |n| <= 1.1e7.")
+UNPROVED_OBSERVED = [u for u in UNPROVED_OBSERVED if not u.startswith("long double overloads")] + [
+    "long double (x87 extended, 64-bit significand): the overloads and `l` spellings of floor ceil trunc round rint lrint llrint copysign "
+    "signbit isnan isinf isfinite are executed in constant evaluation and at run time and compared with the bit-level specification "
+    "instantiated at (15 exponent bits, 63 fraction bits) and with glibc, but they are not modelled: the model column repeats the "
+    "specification (rint_fallback<long double>, the gcem instantiations) or a driver-local transcription (copysign_fallback, "
+    "signbit_fallback<long double>), and no theorem covers them (the gcem theorems need mbits <= 62). Arguments are binary64 values "
+    "with up to 11 further significand bits; exponents outside the binary64 range, pseudo-denormals and unnormals are not generated",
+    "the `f`-suffixed spellings and the integral overloads call the same detail function as the unsuffixed float/double overload: "
+    "compared with its model and specification on a sub-sample, no separate theorem",
+    "detail::signbit_fallback<float/double> (code GCC never reaches through etl::signbit) is executed directly and compared with "
+    "Model.signbitFallback; the `arg != arg` alternative of etl::isnan is an #else branch that this toolchain does not compile and has "
+    "no callable name: Model.isnanFallback is not executable under this toolchain (no R1 tie)",
+    "containers, strings, views, algorithms, integer conversion, chrono: one constant-evaluated script per category (ops vec, istr, "
+    "sview, sortlb, conv, ymd) compared with run time, libstdc++ and a few lines of Lean (model = specification: single-path code); "
+    "the other members of these categories are exercised at run time only, by their own properties (C01-C12)",
+]
 
 # ---------------------------------------------------------------- operations
 F32 = [("x", "u32")]
 F64 = [("x", "u64")]
 TABLES = {}
-for _n in ("floor", "ceil", "trunc", "round", "rint", "lrint", "llrint", "signbit", "isnan", "isinf", "isfinite", "bit_cast"):
+for _n in ("floor", "ceil", "trunc", "round", "rint", "lrint", "llrint", "signbit", "isnan", "isinf", "isfinite", "bit_cast", "sqrt"):
     TABLES[_n + "_f32"] = F32
     TABLES[_n + "_f64"] = F64
 TABLES["copysign_f32"] = [("x", "u32"), ("y", "u32")]
@@ -108,6 +151,35 @@ CTYPE = ["isalnum", "isalpha", "isblank", "iscntrl", "isdigit", "isgraph", "islo
          "isupper", "isxdigit", "tolower", "toupper"]
 for _f in CTYPE:
     TABLES["ctype_" + _f] = [("c", "int")]
+
+# ---- review items T1..T5: the other spellings and overloads, the detail fallbacks, the remaining categories
+for _n in ("floorf", "ceilf", "truncf", "roundf", "rintf", "lrintf", "llrintf", "signbit_fb"):
+    TABLES[_n + "_f32"] = F32
+TABLES["signbit_fb_f64"] = F64
+TABLES["copysignf_f32"] = [("x", "u32"), ("y", "u32")]
+LD_ROUND = ("floorl", "ceill", "truncl", "roundl", "rintl", "floor", "ceil", "trunc", "round", "rint")
+LD_LRINT = ("lrintl", "llrintl", "lrint", "llrint")
+LD_CLASS = ("signbit", "isnan", "isinf", "isfinite", "signbit_fb", "signbit_fb_negnan")
+for _n in LD_ROUND:          # long double argument = binary64 value x plus d low units (see LD() in harness/c13_ops.hpp); p = part
+    TABLES[_n + "_ld"] = [("x", "u64"), ("d", "u32"), ("p", "u32")]
+for _n in LD_LRINT:
+    TABLES[_n + "_ld"] = [("x", "u64"), ("d", "u32")]
+for _n in LD_CLASS:
+    TABLES[_n + "_ld"] = [("x", "u64"), ("d", "u32"), ("n", "u32")]
+for _n in ("copysign", "copysignl"):
+    TABLES[_n + "_ld"] = [("x", "u64"), ("y", "u64"), ("n", "u32")]
+INT_OVERLOADS = ("floor", "ceil", "trunc", "round", "rint", "lrint", "llrint", "isnan", "isinf")
+for _n in INT_OVERLOADS:
+    TABLES[_n + "_i32"] = [("x", "i32")]
+    TABLES[_n + "_i64"] = [("x", "i64")]
+for _t in ("u8", "i8", "i16", "i32", "i64"):
+    TABLES["byteswap_" + _t] = [("x", _t)]
+TABLES["vec"] = [("a", "ilist"), ("k", "int"), ("j", "int"), ("v", "int")]
+TABLES["istr"] = [("a", "ilist"), ("b", "ilist"), ("c", "int")]
+TABLES["sview"] = [("a", "ilist"), ("c", "int"), ("i", "int"), ("n", "int")]
+TABLES["sortlb"] = [("a", "ilist"), ("v", "int")]
+TABLES["conv"] = [("x", "i32"), ("b", "int")]
+TABLES["ymd"] = [("n", "i32")]
 
 BITS = {"u8": 8, "u16": 16, "u32": 32, "u64": 64, "i8": 8, "i16": 16, "i32": 32, "i64": 64}
 
@@ -149,6 +221,11 @@ def cxx_arg(ty, v):
     if ty == "str":
         units = [int(x) for x in v.strip("[]").split(",") if x]
         return '"' + "".join("\\%03o" % u for u in units) + '"'
+    if ty == "ilist":          # a constexpr aggregate: fixed array + size
+        items = [int(x) for x in v.strip("[]").split(",") if x]
+        if len(items) > 16:
+            raise lib.MachineryError("c13: list argument longer than 16")
+        return "c13::IL{%d, {%s}}" % (len(items), ", ".join(str(x) for x in items))
     i = int(v)
     if ty in ("u8", "u16", "u32"):
         return "c13::%s(0x%xu)" % (ty, i & ((1 << BITS[ty]) - 1))
@@ -248,6 +325,96 @@ def is_nan(fmt, b):
 
 def arg_bits(fmt, b):
     return b if fmt == 32 else s64(b)
+
+
+# ---------------------------------------------------------------- exact arithmetic on patterns (fma classes)
+from fractions import Fraction as _Q
+
+
+def _fmt(fmt):
+    return (8, 23) if fmt == 32 else (11, 52)
+
+
+def is_inf(fmt, b):
+    ebits, mbits = _fmt(fmt)
+    return (b & ((1 << (ebits + mbits)) - 1)) == (((1 << ebits) - 1) << mbits)
+
+
+def is_fin(fmt, b):
+    return not is_nan(fmt, b) and not is_inf(fmt, b)
+
+
+def exact(fmt, b):
+    """the rational value of a finite pattern"""
+    ebits, mbits = _fmt(fmt)
+    bias = (1 << (ebits - 1)) - 1
+    a = b & ((1 << (ebits + mbits)) - 1)
+    e, m = a >> mbits, a & ((1 << mbits) - 1)
+    mag = m if e == 0 else ((1 << mbits) + m) << (e - 1)
+    v = _Q(mag, 1 << (bias - 1 + mbits))
+    return -v if b >> (ebits + mbits) else v
+
+
+def _ilog2(q):
+    """floor(log2 q) of a positive rational"""
+    k = q.numerator.bit_length() - q.denominator.bit_length()
+    if _Q(2) ** k > q:
+        k -= 1
+    return k
+
+
+def _rne(q):
+    n = q.numerator // q.denominator
+    r = q - n
+    return n + 1 if (r > _Q(1, 2) or (r == _Q(1, 2) and n % 2 == 1)) else n
+
+
+def round_info(fmt, e):
+    """(folds, overflows) for the exact rational e: `folds` = e rounded to nearest even at the precision of the format with
+    an unbounded exponent range is a finite value of the format (GCC's condition for folding a libm builtin through
+    MPFR); `overflows` = the correctly rounded result is infinite"""
+    ebits, mbits = _fmt(fmt)
+    bias = (1 << (ebits - 1)) - 1
+    if e == 0:
+        return True, False
+    a = abs(e)
+    k = _ilog2(a)
+    quantum = _Q(2) ** (k - mbits)
+    v = _rne(a / quantum) * quantum
+    unit = _Q(2) ** (1 - bias - mbits)
+    maxfin = (_Q(2) - _Q(2) ** (-mbits)) * _Q(2) ** bias
+    if k >= 1 - bias:
+        return v <= maxfin, v > maxfin
+    return (v / unit).denominator == 1, False
+
+
+def fma_class(fmt, x, y, z):
+    """recomputed from the case alone: (outside_domain, residual).
+    outside_domain: the fused result is not defined (inf*0, inf-inf among non-NaN arguments) or overflows;
+    residual (finding F-c13-fma-constexpr-unfolded, = Tetl.C13.FmaSqrt.FmaResidual): GCC does not fold the builtin and
+    x, y are finite with z finite or the rounded product overflowing, or inf*0 meets a NaN addend"""
+    nan = [is_nan(fmt, b) for b in (x, y, z)]
+    inf = [is_inf(fmt, b) for b in (x, y, z)]
+    fin = [not nan[i] and not inf[i] for i in range(3)]
+    zero = [fin[i] and exact(fmt, (x, y, z)[i]) == 0 for i in range(3)]
+    prod_invalid = (inf[0] and zero[1]) or (zero[0] and inf[1])
+    sgn = lambda b: b >> (fmt - 1)
+    outside = False
+    if not any(nan):
+        if prod_invalid:
+            outside = True
+        elif (inf[0] or inf[1]) and inf[2] and ((sgn(x) ^ sgn(y)) != sgn(z)):
+            outside = True
+    folds = False
+    prod_over = False
+    if fin[0] and fin[1]:
+        p = exact(fmt, x) * exact(fmt, y)
+        prod_over = round_info(fmt, p)[1]
+        if fin[2]:
+            folds, over = round_info(fmt, p + exact(fmt, z))
+            outside = outside or over
+    residual = (not folds) and ((fin[0] and fin[1] and (fin[2] or prod_over)) or (nan[2] and prod_invalid))
+    return outside, residual
 
 
 # ---------------------------------------------------------------- generator
@@ -350,11 +517,11 @@ def generate(tier, seed):
         dist["boundary" + sfx] = len(tbl)
         for b in tbl:
             a = arg_bits(fmt, b)
-            for fn in ("floor", "ceil", "trunc", "round", "rint", "signbit", "isnan", "isinf", "isfinite", "bit_cast"):
+            for fn in ("floor", "ceil", "trunc", "round", "rint", "signbit", "isnan", "isinf", "isfinite", "bit_cast", "sqrt"):
                 add(mk(fn + sfx, x=a), fn)
             conv_limit = 2.0 ** 63
             val = struct.unpack("<f", struct.pack("<I", b))[0] if fmt == 32 else struct.unpack("<d", struct.pack("<Q", b))[0]
-            if val == val and abs(val) < conv_limit:          # the domain of lrint: result representable
+            if val == val and (abs(val) < conv_limit or val == -conv_limit):          # the domain of lrint: result representable (-2^63 included)
                 add(mk("lrint" + sfx, x=a), "lrint")
                 add(mk("llrint" + sfx, x=a), "lrint")
         few = [b for b in tbl if rnd.random() < (0.05 if thorough else 0.03)]
@@ -374,34 +541,10 @@ def generate(tier, seed):
         def val_of(b):
             return struct.unpack("<f", struct.pack("<I", b))[0] if fmt == 32 else struct.unpack("<d", struct.pack("<Q", b))[0]
 
-        def undefined(x, y, z):
-            """overflow of a finite computation or an invalid operation (inf*0, inf-inf): undefined behaviour, hence not a
-            constant expression and outside the domain; the quick tier does not spend a recompilation on such rows"""
-            if any(is_nan(fmt, b) for b in (x, y, z)):
-                return False
-            vx, vy, vz = val_of(x), val_of(y), val_of(z)
-            try:
-                if fmt == 32:
-                    p = struct.unpack("<f", struct.pack("<f", vx * vy))[0]
-                    r = struct.unpack("<f", struct.pack("<f", p + vz))[0]
-                    import fractions
-                    e = fractions.Fraction(vx) * fractions.Fraction(vy) + fractions.Fraction(vz) if all(
-                        v not in (float("inf"), float("-inf")) for v in (vx, vy, vz)) else None
-                    if e is not None:
-                        struct.pack("<f", float(e))
-                else:
-                    p = vx * vy
-                    r = p + vz
-            except (OverflowError, ValueError):
-                return True
-            inf = float("inf")
-            finite_in = all(abs(v) != inf for v in (vx, vy, vz))
-            if r != r or p != p:
-                return True
-            return finite_in and (abs(p) == inf or abs(r) == inf)
-
         def fma_case(x, y, z, tag):
-            if not thorough and undefined(x, y, z):
+            # rows outside the domain (fused result undefined or overflowing) are not constant expressions: each of them
+            # costs the quick tier a recompilation round, so it keeps only the tagged ones (`fma/outside`)
+            if not thorough and tag != "fma/outside" and fma_class(fmt, x, y, z)[0]:
                 return
             add(mk("fma" + sfx, x=arg_bits(fmt, x), y=arg_bits(fmt, y), z=arg_bits(fmt, z)), tag)
 
@@ -436,9 +579,257 @@ def generate(tier, seed):
         for _ in range(3000 if thorough else 500):
             x, y, z = (rnd.choice(tbl) for _ in range(3))
             fma_case(x, y, z, "fma/random")
+        # the two-step evaluation x*y+z overflows although the fused result is finite: inside the domain
+        mx = (((1 << ebits) - 1) << mbits) - 1
+        two, half_ = one + (1 << mbits), one - (1 << mbits)
+        for (x, y, z) in ((mx, two, mx ^ sgn), (mx ^ sgn, two, mx), (two, mx, mx ^ sgn), (mx, one + 1, mx ^ sgn),
+                          (mx - 5, two, (mx - 9) ^ sgn), (mx, two + 1, mx ^ sgn)):
+            fma_case(x, y, z, "fma/cancel-overflow")
+        for _ in range(200 if thorough else 40):
+            x = mx - rnd.getrandbits(mbits)
+            y = one + rnd.getrandbits(mbits)
+            z = f32bits(-val_of(x)) if fmt == 32 else f64bits(-val_of(x))
+            fma_case(x, y, z, "fma/cancel-overflow")
+        # results in the subnormal range (GCC folds the builtin only when the rounded value is exactly a subnormal)
+        eh = (((1 << (ebits - 1)) - 1) - (((1 << (ebits - 1)) - 2 + mbits) // 2 + 1))      # x = y = 2^eh: x*y = half a unit or a quarter
+        tiny = [0, sgn, 1, 1 | sgn, 2, 3, 3 | sgn, (1 << mbits) - 1, 1 << mbits]
+        for de in (-1, 0, 1, 2, 3):
+            for mx_, my_ in ((0, 0), (1 << (mbits - 1), 0), (1 << (mbits - 1), 1 << (mbits - 1)), (1, 1), (3 << (mbits - 2), 0)):
+                x = ((eh + de) << mbits) | mx_
+                y = (eh << mbits) | my_
+                for z in tiny:
+                    fma_case(x, y, z, "fma/underflow")
+                    fma_case(x | sgn, y, z, "fma/underflow")
+        for _ in range(1500 if thorough else 300):
+            bias_ = (1 << (ebits - 1)) - 1
+            tgt = rnd.randint(-(bias_ - 1 + mbits) - 3, -(bias_ - 1) + 3)          # exponent of the product: subnormal range
+            ex = rnd.randint(1, bias_)
+            ey = min(max(tgt + 2 * bias_ - ex, 1), (1 << ebits) - 2)
+            x = (ex << mbits) | rnd.getrandbits(mbits)
+            y = (ey << mbits) | rnd.getrandbits(mbits if rnd.random() < 0.5 else 3)
+            z = rnd.choice(tiny) if rnd.random() < 0.6 else rnd.getrandbits(mbits + 2) | (sgn if rnd.random() < 0.5 else 0)
+            fma_case(x, y, z, "fma/underflow")
+        # an overflowing product with an infinite or NaN addend (fused: the addend), inf*0 with a NaN addend
+        inf_, qn = specials[0], specials[2]
+        big = ((1 << ebits) - 2) << mbits
+        for (x, y, z) in ((big, big, inf_), (big, big, inf_ | sgn), (big | sgn, big, inf_), (big, big, qn), (inf_, 0, qn), (0, inf_ | sgn, qn)):
+            fma_case(x, y, z, "fma/product-overflow")
+        # outside the domain: a few rows only (each is a compile error the check has to map back)
+        for (x, y, z) in ((big, big, one), (inf_, 0, one), (inf_, one, inf_ | sgn)):
+            fma_case(x, y, z, "fma/outside")
+    generate_extra(add, dist, seed, thorough)          # review items T1..T5 (below)
     res = (cases, False, dist)
     _CACHE[key] = res
     return res
+
+
+# ---------------------------------------------------------------- generator of the operations added by the review (T1..T5)
+def _f64val(b):
+    return struct.unpack("<d", struct.pack("<Q", b))[0]
+
+
+def ld_value(x, d):
+    """exact value (Fraction) of the long double argument LD(x, d) of harness/c13_ops.hpp; None for inf/NaN"""
+    import fractions
+    if is_nan(64, x) or (x & ((1 << 63) - 1)) == (0x7ff << 52):
+        return None
+    a = fractions.Fraction(_f64val(x))
+    ef = (x >> 52) & 0x7ff
+    if d and 64 <= ef <= 2045:
+        u = fractions.Fraction(2) ** (ef - 1023 - 63)
+        a = a - d * u if x >> 63 else a + d * u
+    return a
+
+
+def generate_extra(add, dist, seed, thorough):
+    rnd = random.Random(seed * 1000003 + 13)          # own stream: the cases of the older operations do not move
+    sgn32, sgn64 = 1 << 31, 1 << 63
+    t32 = boundary(32, rnd, thorough)
+    t64 = boundary(64, rnd, thorough)
+    must32 = [f32bits(v) for v in (0.0, 0.5, 1.5, 2.5, 0.25, 0.75, 1.0, 8388607.5, 8388608.0, 4194304.5, 9.223372e18)]
+    must32 += [0x7f800000, 0x7fc00000, 0x7f800001, 0x7fc00005, 0x5f000000, 0x5effffff, 1, 0x007fffff, 0x00800000]
+    must32 += [b | sgn32 for b in must32]
+    must64 = [f64bits(v) for v in (0.0, 0.5, 1.5, 2.5, 0.25, 0.75, 1.0, 4503599627370495.5, 4503599627370496.0,
+                                   2251799813685248.5, 9007199254740992.0, 9007199254740994.0, 2.0 ** 62, 2.0 ** 63, 2.0 ** 64,
+                                   1e300, 1.7976931348623157e308)]
+    must64 += [0x7ff0000000000000, 0x7ff8000000000000, 0x7ff0000000000001, 0x7ff8000000000005, 0x43dfffffffffffff, 1,
+               0x000fffffffffffff, 0x0010000000000000]
+    must64 += [b | sgn64 for b in must64]
+    st = 2 if thorough else 5
+    smp32 = sorted(set(t32[rnd.randrange(st)::st] + must32))
+    smp64 = sorted(set(t64[rnd.randrange(st)::st] + must64))
+    dist["sample_f32"], dist["sample_f64"] = len(smp32), len(smp64)
+
+    # T1(b): the f-suffixed spellings; T2: signbit_fallback<float/double>
+    for b in smp32:
+        for fn in ("floorf", "ceilf", "truncf", "roundf", "rintf"):
+            add(mk(fn + "_f32", x=b), "suffix_f")
+        v = struct.unpack("<f", struct.pack("<I", b))[0]
+        if v == v and (abs(v) < 2.0 ** 63 or v == -2.0 ** 63):
+            add(mk("lrintf_f32", x=b), "suffix_f")
+            add(mk("llrintf_f32", x=b), "suffix_f")
+    for b in t32[::2] + must32:
+        add(mk("signbit_fb_f32", x=b), "signbit_fb")
+    for b in t64[::2] + must64:
+        add(mk("signbit_fb_f64", x=arg_bits(64, b)), "signbit_fb")
+    # T3: copysign with NaN magnitudes of both signs (quiet, signalling, payload) and sign sources of both signs
+    for fmt, nans, others in ((32, [0x7fc00000, 0x7f800001, 0x7fc12345, 0x7fffffff], [0, 0x3f800000, 0x7f800000, 0x7fc00000, 1]),
+                              (64, [0x7ff8000000000000, 0x7ff0000000000001, 0x7ff8000012345678, 0x7fffffffffffffff],
+                               [0, 0x3ff0000000000000, 0x7ff0000000000000, 0x7ff8000000000000, 1])):
+        sg = 1 << (fmt - 1)
+        xs = nans + [b | sg for b in nans] + others + [b | sg for b in others]
+        ys = others + [b | sg for b in others] + [nans[1], nans[1] | sg]
+        for x in xs:
+            for y in ys:
+                add(mk("copysign_f%d" % fmt, x=arg_bits(fmt, x), y=arg_bits(fmt, y)), "copysign/nan")
+                if fmt == 32:
+                    add(mk("copysignf_f32", x=x, y=y), "suffix_f")
+    for x in smp32[::6]:
+        for y in (0, sgn32, 0x3f800000, 0xbf800000, 0x7fc00000, 0xffc00000):
+            add(mk("copysignf_f32", x=x, y=y), "suffix_f")
+
+    # T1(a): long double.  d = further low units of the 64-bit significand (arguments that are not doubles)
+    ldargs = set()
+    for b in sorted(set(t64[rnd.randrange(8)::8] + must64)) if thorough else sorted(set(smp64[::2] + must64)):
+        ldargs.add((b, 0))
+        ef = (b >> 52) & 0x7ff
+        if 64 <= ef <= 2045 and rnd.random() < 0.3:
+            for d in (1, 2047, rnd.randrange(1, 2048)):
+                ldargs.add((b, d))
+    for k in range(52, 66):          # 2^k <= |x| < 2^(k+1): D(x) is an integer and d/2^(63-k) its fraction; half = 2^(62-k) units
+        half = (1 << (62 - k)) if k <= 62 else 1024          # k >= 63: every value is an integer (2^64 - 1 = LD(2^64 - 2048, 2047))
+        for m in [0, 1, (1 << 52) - 1] + [rnd.getrandbits(52) for _ in range(5 if thorough else 1)]:
+            for s in (0, sgn64):
+                x = ((1023 + k) << 52) | m | s
+                for d in sorted({half, half - 1, half + 1, 2 * half, 3 * half, 1, 2047, 2048 - 2 * half, rnd.randrange(1, 2048)}):          # 2048 - 2 half: 2^(k+1) - 1
+                    if 0 < d < 2048:
+                        ldargs.add((x, d))
+    ldargs = sorted(ldargs)
+    dist["ld_args"] = len(ldargs)
+    for i, (x, d) in enumerate(ldargs):
+        for fn in LD_ROUND:
+            if not thorough and fn in LD_ROUND[5:] and i % 2 == 1 and not (d == 2047 and (x >> 52) & 0x7ff == 1085):
+                continue          # quick tier: the overload spelling (same detail function as the `l` spelling) on every other argument
+            for p in (0, 1):
+                add(mk(fn + "_ld", x=s64(x), d=d, p=p), "longdouble/round")
+        a = ld_value(x, d)
+        if a is not None and -(1 << 63) <= round(a) < (1 << 63):          # Fraction.__round__ rounds half to even
+            for fn in (LD_LRINT if (thorough or i % 2 == 0) else LD_LRINT[:2]):
+                add(mk(fn + "_ld", x=s64(x), d=d), "longdouble/lrint")
+    for x, d in ldargs[::3] + [(b, 0) for b in must64]:
+        for n in (0, 1):
+            for fn in ("signbit", "isnan", "isinf", "isfinite"):
+                add(mk(fn + "_ld", x=s64(x), d=d, n=n), "longdouble/class")
+            # T2: detail::signbit_fallback<long double>; a negative NaN goes to its own table (finding
+            # F-c13-signbit-fallback-longdouble-negative-nan)
+            neg_nan = is_nan(64, x) and ((x >> 63) ^ n) == 1
+            add(mk("signbit_fb_negnan_ld" if neg_nan else "signbit_fb_ld", x=s64(x), d=d, n=n),
+                "signbit_fb/negnan" if neg_nan else "signbit_fb")
+    grid = [0, 1, 0x3ff0000000000000, 0x3ff8000000000000, 0x7fefffffffffffff, 0x7ff0000000000000, 0x7ff8000000000000,
+            0x7ff0000000000001]
+    grid += [b | sgn64 for b in grid]
+    for x in grid:
+        for y in grid:
+            for n in ((0, 1, 2, 3) if (is_nan(64, x) or is_nan(64, y) or thorough) else (0, 3)):
+                add(mk("copysign_ld", x=s64(x), y=s64(y), n=n), "longdouble/copysign")
+                add(mk("copysignl_ld", x=s64(x), y=s64(y), n=n), "longdouble/copysign")
+
+    # T1(c): the integral overloads
+    for w in (32, 64):
+        lo, hi = -(1 << (w - 1)), (1 << (w - 1)) - 1
+        vals = {0, 1, -1, 2, -2, 3, lo, lo + 1, hi, hi - 1}
+        for k in range(1, w - 1):
+            vals.update([1 << k, (1 << k) - 1, (1 << k) + 1, -(1 << k), -(1 << k) - 1, -(1 << k) + 1])
+        if w == 64:          # the conversion to double rounds beyond 2^53
+            for k in (53, 54, 60, 62):
+                vals.update([(1 << k) + 1, (1 << k) + 2, (1 << k) + 3, -(1 << k) - 1, -(1 << k) - 3, (1 << k) + (1 << (k - 53)), (1 << k) + 3 * (1 << (k - 53))])
+        for _ in range(400 if thorough else 60):
+            vals.add(rnd.randint(lo, hi))
+            vals.add(rnd.randint(-(1 << 20), 1 << 20))
+        for v in sorted(vals):
+            for fn in INT_OVERLOADS:
+                if fn in ("lrint", "llrint") and not (-(2.0 ** 63) <= float(v) < 2.0 ** 63):
+                    continue          # (double)v == 2^63: outside the domain of lrint
+                add(mk("%s_i%d" % (fn, w), x=v), "integral")
+
+    # T5: byteswap of one-byte and signed types
+    for v in range(256):
+        add(mk("byteswap_u8", x=v), "byteswap")
+        add(mk("byteswap_i8", x=v - 128), "byteswap")
+    for w in (16, 32, 64):
+        lo, hi = -(1 << (w - 1)), (1 << (w - 1)) - 1
+        vals = {0, 1, -1, 2, -2, lo, lo + 1, hi, hi - 1, 0x0102030405060708 & hi, -(0x0102030405060708 & hi), 0x80, 0xff, 0x7f, -0x80, -0x81}
+        for k in range(w - 1):
+            vals.update([1 << k, -(1 << k), (0xff << k) & hi])
+        for _ in range(1000 if thorough else 100):
+            vals.add(rnd.randint(lo, hi))
+        for v in sorted(vals):
+            add(mk("byteswap_i%d" % w, x=v), "byteswap")
+
+    # T4: one constexpr row per remaining category
+    def ilist(n, lo, hi):
+        return [rnd.randint(lo, hi) for _ in range(n)]
+    # containers: static_vector<int, 8>: push_back all, erase index k (if k < size), insert v at j (if j <= size < 8)
+    for n in range(0, 4):          # small box
+        a = [7, -3, 5][:n]
+        for k in range(-1, n + 1):
+            for j in range(-1, n + 2):
+                add(mk("vec", a=lib.fmt_list(a), k=k, j=j, v=11), "ev_containers")
+    for _ in range(1500 if thorough else 250):
+        n = rnd.randint(0, 8)
+        add(mk("vec", a=lib.fmt_list(ilist(n, -50, 50)), k=rnd.randint(-1, 9), j=rnd.randint(-1, 9), v=rnd.randint(-50, 50)), "ev_containers")
+    # strings: inplace_string<16>: build a, append b, find c
+    al = [97, 98, 99]
+    small = [[]] + [[x] for x in al[:2]] + [[x, y] for x in al[:2] for y in al[:2]]
+    for a in small:
+        for b in small:
+            for c in (97, 98, 99):
+                add(mk("istr", a=lib.fmt_list(a), b=lib.fmt_list(b), c=c), "ev_strings")
+    for _ in range(1500 if thorough else 200):
+        na = rnd.randint(0, 15)
+        nb = rnd.randint(0, 15 - na)
+        alpha = rnd.choice([[97, 98], [97, 98, 99, 100], [1, 65, 127]])
+        add(mk("istr", a=lib.fmt_list([rnd.choice(alpha) for _ in range(na)]), b=lib.fmt_list([rnd.choice(alpha) for _ in range(nb)]),
+               c=rnd.choice(alpha + [122])), "ev_strings")
+    # views: string_view substr(i, n) (i <= size), find, compare with the whole
+    for a in small:
+        for i in range(0, len(a) + 1):
+            for n in range(0, 4):
+                for c in (97, 98):
+                    add(mk("sview", a=lib.fmt_list(a), c=c, i=i, n=n), "ev_views")
+    for _ in range(1500 if thorough else 200):
+        na = rnd.randint(0, 15)
+        alpha = rnd.choice([[97, 98], [97, 98, 99, 100], [1, 65, 127]])
+        add(mk("sview", a=lib.fmt_list([rnd.choice(alpha) for _ in range(na)]), c=rnd.choice(alpha + [122]), i=rnd.randint(0, na),
+               n=rnd.randint(0, 17)), "ev_views")
+    # algorithms: sort + lower_bound
+    import itertools
+    for n in range(0, 4):
+        for a in itertools.product((1, 2, 3), repeat=n):
+            for v in (0, 1, 2, 3, 4):
+                add(mk("sortlb", a=lib.fmt_list(list(a)), v=v), "ev_algorithms")
+    for _ in range(1500 if thorough else 200):
+        n = rnd.randint(0, 8)
+        r = rnd.choice([3, 10, 1000])
+        add(mk("sortlb", a=lib.fmt_list(ilist(n, -r, r)), v=rnd.randint(-r - 1, r + 1)), "ev_algorithms")
+    # integer conversion: to_chars / from_chars of an int32_t in base b
+    cv = {0, 1, -1, 9, 10, -10, 35, 36, 37, 255, 256, -255, (1 << 31) - 1, -(1 << 31), -(1 << 31) + 1, 1 << 30, 12345, -98765}
+    for v in sorted(cv):
+        for b in range(2, 37):
+            add(mk("conv", x=v, b=b), "ev_charconv")
+    for _ in range(1500 if thorough else 150):
+        v = rnd.choice([rnd.randint(-(1 << 31), (1 << 31) - 1), rnd.randint(-5000, 5000)])
+        add(mk("conv", x=v, b=rnd.choice([2, 8, 10, 16, 36, rnd.randint(2, 36)])), "ev_charconv")
+    # chrono: year_month_day{sys_days{days{n}}}
+    dv = set(range(-800, 800, 1 if thorough else 7)) | {0, -1, 1, 58, 59, 60, 365, 366, 11016, 11017, 11018, -719468, -719469, 10957, 19782}
+    for y in (1900, 2000, 2100, 2400, 1600, 1, 0, -1, -400, 30000, -30000):          # around 28 Feb / 1 Mar and the new year
+        base = (y - 1970) * 365 + (y - 1969) // 4 - (y - 1901) // 100 + (y - 1601) // 400
+        dv.update(range(base - 2, base + 2))
+        dv.update(range(base + 57, base + 62))
+    for _ in range(1500 if thorough else 200):
+        dv.add(rnd.randint(-11000000, 11000000))
+    for n in sorted(dv):
+        add(mk("ymd", n=n), "ev_chrono")
 
 
 # ---------------------------------------------------------------- tables, variants, compile-failure recovery
@@ -607,25 +998,17 @@ def nontrivial(case, rows):
 
 
 def classify(case, k, row):
-    """F-c13-fma-constexpr-double-rounding: the constant-evaluated path of fma computes x*y+z with two roundings.
-    The class is `the two-rounding result differs from the fused one`: exactly the cases where the Lean model of the
-    constant-evaluated path (Model.fmaTwoStep) differs from the specification (Fmt.fma) while every run-time
-    evaluation and the model of the run-time path agree with the specification."""
-    op = case.lines[k].split(" ")[0]
-    if op not in ("fma_f32", "fma_f64") or row.spec == "*":
+    """F-c13-fma-constexpr-unfolded: since the fix 2d96e3e the constant-evaluated path of fma is the fused builtin wherever
+    GCC folds it; the remaining arguments run x*y+z (two roundings, each a possible overflow/invalid operation).  The class
+    is recomputed from the arguments of the case alone, in exact rational arithmetic (`fma_class`, the Python twin of
+    Tetl.C13.FmaSqrt.FmaResidual, the hypothesis of Tetl.C13.Props.fma_paths_partial): no result column is read."""
+    op, a = parse(case.lines[k])
+    if op not in ("fma_f32", "fma_f64"):
         return None
-    try:
-        m = [g.split("/") for g in row.model.split(" ")]
-        s = [g.split("/") for g in row.spec.split(" ")]
-        i = [g.split("/") for g in row.impl.split(" ")]
-    except Exception:
-        return None
-    if len(m) != 3 or len(i) != 3 or any(len(g) != 2 for g in m + s + i):
-        return None
-    two_step_differs = m[0][0] != s[0][0]
-    rt_ok = all(g[1] == s[0][0] for g in i) and all(g[1] == s[0][0] for g in m)
-    ct_is_two_step = all(g[0] == m[0][0] for g in i)
-    return "F-c13-fma-constexpr-double-rounding" if (two_step_differs and rt_ok and ct_is_two_step) else None
+    fmt = 32 if op.endswith("32") else 64
+    m = (1 << fmt) - 1
+    outside, residual = fma_class(fmt, int(a["x"]) & m, int(a["y"]) & m, int(a["z"]) & m)
+    return "F-c13-fma-constexpr-unfolded" if (residual and not outside) else None
 
 
 def group_of(case):
@@ -638,9 +1021,12 @@ TECHNIQUE = ("Lean 4 proof that tetl's own code on one path equals the specifica
              "(constant evaluator / run time at -O0, -O2, sanitized / Lean) ties both paths to the specification")
 LEVEL_TEXT = ("Every function with a compile-time/run-time switch (is_constant_evaluated, __has_builtin, compiler test) is extracted from "
               "the current headers into a Lean table on every run; Lean re-checks that each entry's builtins and callees are bound to "
-              "one specification and that fma is the only live pair known to differ. For popcount, byteswap (16 bit), add_sat, the "
-              "C-string functions, copysign, signbit, isnan and the constant-evaluated gcem floor/ceil/trunc/round (modelled operation by "
-              "operation with IEEE roundings) the model of tetl's own code on one path is proved, for all inputs and every "
+              "one specification, that fmod, remainder and sqrt run the same builtin on both paths under GCC, and that fma (on the "
+              "arguments for which GCC does not fold the builtin) is the only live pair known to differ. For popcount, byteswap "
+              "(16 bit), add_sat, the C-string functions (re-exports of the theorems of C14/C18), copysign, signbit (4/8-byte "
+              "types), isnan, the special-value ladder of the constant-evaluated sqrt, the constant-evaluated fma outside the "
+              "known class (every format, NaN/inf included) and the constant-evaluated gcem floor/ceil/trunc/round (modelled "
+              "operation by operation with IEEE roundings) the model of tetl's own code on one path is proved, for all inputs and every "
               "width/format, to return without undefined behaviour exactly the value specified for the builtin on the other path; for "
               "rint_fallback it is proved that no argument reaches an out-of-range integer conversion (the "
               "model-level face of `constant evaluation succeeds on the whole domain`). Both paths of every operation are then evaluated "
@@ -650,18 +1036,52 @@ LEVEL_TEXT = ("Every function with a compile-time/run-time switch (is_constant_e
 LEVEL_NOTE = ("Partial by design (DESIGN §6): that GCC's constant evaluator and code generator implement the abstract machine, and that "
               "builtins implement their specification, is trusted and observed on the explored inputs only (coverage.unproved_observed). "
               "The rint/lrint fallbacks are modelled and compared on every run but have no value theorem yet "
-              "(coverage.correspondence_only). fmod, remainder and sqrt are two-path since the C16 fixes: inventoried and bound here, "
-              "evaluated on both paths by property C16 (fmod/remainder in constant evaluation: known finding F-C16-gcem-fmod-constexpr). Approximating cmath functions are inventoried but have no exactly specified result and "
+              "(coverage.correspondence_only). fmod and remainder are inventoried and bound here and evaluated on both paths by "
+              "property C16; sqrt (correctly rounded, hence exact) has its own specification FSpec.sqrt, rows and ladder theorem "
+              "here. Known finding: fma for the arguments GCC does not fold (F-c13-fma-constexpr-unfolded: class defined on the "
+              "arguments, partial theorem + two counterexamples). Approximating cmath functions are inventoried but have no exactly specified result and "
               "are outside the statement. Trusted: Lean kernel + propext/Classical.choice/Quot.sound, gen/dispatch.py, g++ 12, glibc "
               "as oracle for the specification.")
 CORRESPONDENCE_ONLY = [
     "rint_fallback (Model.rintFallback): value by correspondence; totality proved (rintFallback_total)",
     "lrint_fallback / llrint (Model.lrintFallback): correspondence only, on the domain where the result is representable",
-    "fma: two-step constant-evaluated path (Model.fmaTwoStep) vs fused specification (Fmt.fma): known finding "
-    "F-c13-fma-constexpr-double-rounding; partial theorem with the class as hypothesis + counterexample",
+    "fma: constant-evaluated path Model.fmaCt = fused where GCC folds the builtin, two-step x*y+z elsewhere; proved equal to the "
+    "fused specification outside the argument class FmaResidual (fma_paths_partial); inside it: known finding "
+    "F-c13-fma-constexpr-unfolded (two counterexample theorems), compared on every row",
+    "sqrt: FSpec.sqrt (integer square root + sticky bit, rounded by roundUnits) is validated against glibc on every row (R2), not "
+    "proved against a real-number semantics; the ladder in front of the builtin is proved (sqrt_paths)",
     "byteswap_fallback for uint32_t / uint64_t (C14 model bswap32/bswap64): correspondence only (16 bit proved: byteswap_paths)",
     "signbit, isinf, isfinite, bit_cast, byteswap, add_sat (builtin on both paths): compared with the specification on every case",
     "cctype functions (single path): C18 model and specification, all 257 arguments in constant evaluation and at run time",
     "IEEE operations of Tetl/C13/Float.lean (roundUnits, add, mul, fma) used as the specification of rounding/fma: validated "
     "against glibc on every case (R2), not proved against a rational-number semantics (that is C16's obligation)"]
 THEOREMS = {}
+
+
+# ---------------------------------------------------------------- finding of the long double rows (kept apart from classify() above)
+def classify_ld_below_2p63(case, k, row):
+    """F-c13-roundl-overflow-below-2p63.  The class is recomputed from the arguments: the long double argument is
+    +-(2^63 - 1/2), the only value of the 64-bit significand in [2^63 - 1/2, 2^63): LD(x, d) with |x| = 0x43dfffffffffffff
+    (2^63 - 1024) and d = 2047, operation round(long double) / roundl.  gcem round (both paths) converts floor(|x|) + 1 = 2^63 to
+    long long: not a constant expression; at run time the out-of-range conversion gives the result the wrong sign.
+    (rint/rintl of the same argument failed to constant-evaluate until 21f1c9f: fixed finding
+    F-c13-rintl-constexpr-overflow-below-2p63.)"""
+    op, a = parse(case.lines[k])
+    if op not in ("round_ld", "roundl_ld") or a.get("d") != "2047":
+        return None
+    x = int(a["x"]) & ((1 << 64) - 1)
+    if (x & ((1 << 63) - 1)) != 0x43dfffffffffffff:
+        return None
+    return "F-c13-roundl-overflow-below-2p63"
+
+
+_classify_two_path = classify
+
+
+def classify(case, k, row):          # noqa: F811  (wraps the classifier above; no change to it)
+    return classify_ld_below_2p63(case, k, row) or _classify_two_path(case, k, row)
+
+
+# the tables that hold rows known not to constant-evaluate (findings ...-below-2p63) are emitted with one constexpr variable per
+# row from the first compilation on: every failing row is then reported by that compilation (one recovery round instead of two)
+PERVAR.update(("round_ld", "roundl_ld"))
